@@ -72,6 +72,9 @@ func init() {
 		ruleNoAlias(r, "C13.IMM", []*ssa.Function{w.Fn("kmeansInternal"), w.Method(k.IndexT, "Train"), w.Fn("FindNearestCentroidIndex")})
 		ruleFlushRetention(r, "C13.FLUSH", k)
 		ruleVecAtomicAndRevive(r, k)
+		ruleDistance(r, "C13.DIST")
+		ruleKMeansShape(r, "C13")
+		ruleKMeansUpdate(r, "C13.UPDATE")
 		r.FloorCheck("C13.ORD.probe", 5)
 		r.FloorCheck("C13.ASSIGN", 3)
 		r.FloorCheck("C13.TRAINED", 2)
@@ -105,6 +108,8 @@ func init() {
 			}
 		}
 		ruleNoAlias(r, "C14.IMM", []*ssa.Function{w.Fn("kmeansInternal")})
+		ruleKMeansShape(r, "C14")
+		ruleKMeansUpdate(r, "C14.UPDATE")
 		r.FloorCheck("C14.WIDTH", 2)
 		r.FloorCheck("C14.TRAINSIZE", 3)
 		r.FloorCheck("C14.TABLE", 4)
